@@ -133,6 +133,15 @@ for it in range(a.n):
         ex = b.get_exposures(strategy, lk, exclusion=exclusion, new_order=no)
         per[lk] = (ex["worst_possible_profit_on_win"], ex["worst_possible_profit_on_lose"])
         sw, sl = spec_selection([o for o in mine if o.lookup == lk], exclusion, no)
+        # the single figure reported per selection: the worst-case LOSS (never negative: a book that is green on both outcomes has none)
+        if any(o.lookup == lk for o in mine):
+            se = b.selection_exposure(strategy, lk)
+            sw0, sl0 = spec_selection([o for o in mine if o.lookup == lk], None, None)
+            want = max(-min(sw0, sl0), 0.0)
+            if abs(se - want) > 0.0101:
+                failures.append(dict(kind="selection_exposure != max(-(worst case over win / lose), 0)", lookup=str(lk), reported=se, expected=want, worst_case=(sw0, sl0)))
+                bad = True
+                break
         if abs(sw - per[lk][0]) > 0.0101 or abs(sl - per[lk][1]) > 0.0101:
             failures.append(dict(kind="get_exposures != brute-force worst case over fill subsets", lookup=str(lk), reported=per[lk], expected=(sw, sl),
                                  orders=[dict(side=o.side, type=o.order_type.ORDER_TYPE.name, status=o.status.name, matched=o.size_matched, remaining=o.size_remaining,
